@@ -6,6 +6,7 @@
 import Ladybug.DrvCore
 import Ladybug.Model.Sky
 import Ladybug.Model.SkyObj
+import Ladybug.Model.SkyList
 
 open Drv Sky
 
@@ -272,6 +273,20 @@ def handle (toks : List String) : String :=
       | .ok r => "ok " ++ joinSp (r.map sf)
       | .error e => showErr e
     | _, _, _, _, _, _ => "bad-op"
+  | "csl" :: month :: cl :: rest =>
+    match month.toInt?, fl cl, fls rest with
+    | some m, some c, some alts =>
+      match clearSkyList alts m c with
+      | .ok (dn, dh) => "ok " ++ " ".intercalate ((dn ++ dh).map sf)
+      | .error e => showErr e
+    | _, _, _ => "bad-op"
+  | "rcsl" :: tb :: td :: u :: rest =>
+    match fl tb, fl td, bool? u, fls rest with
+    | some tb, some td, some u, some alts =>
+      match revisedClearSkyList alts tb td u with
+      | .ok (dn, dh) => "ok " ++ " ".intercalate ((dn ++ dh).map sf)
+      | .error e => showErr e
+    | _, _, _, _ => "bad-op"
   | ["cs", month, alt, cl] =>
     match month.toInt?, fl alt, fl cl with
     | some m, some a, some c => ok2 (clearSky1 a m c)
